@@ -112,6 +112,11 @@ func stylePolicies() []*PolicySpec {
 			Op{Kind: "styles", Names: []string{"color"}, Re: `^#[0-9a-f]+$`, Scope: "M", ScopeRe: `^(b|i)$`}),
 		mk("s-mixed", Op{Kind: "styles", Names: []string{"color"}, Handler: "hasred", Scope: "G"}, Op{Kind: "styles", Names: []string{"color"}, Scope: "E", ScopeEls: []string{"p"}},
 			Op{Kind: "styles", Names: []string{"unknown-prop"}, Scope: "G"}, Op{Kind: "styles", Names: []string{"width"}, Enum: []string{"1px", "10PX"}, Scope: "E", ScopeEls: []string{"p"}}),
+		mk("s-overlap", Op{Kind: "styles", Names: []string{"color"}, Re: `^#[0-9a-f]+$`, Scope: "G"}, Op{Kind: "styles", Names: []string{"color"}, Enum: []string{"red"}, Scope: "E", ScopeEls: []string{"p", "span"}},
+			Op{Kind: "styles", Names: []string{"width"}, Re: `^(1px|auto)$`, Scope: "G"}, Op{Kind: "styles", Names: []string{"width"}, Re: `^2px$`, Scope: "M", ScopeRe: `^(b|i)$`},
+			Op{Kind: "styles", Names: []string{"background"}, Re: `^(red|green|blue)$`, Scope: "G"}),
+		mk("s-two-patterns", Op{Kind: "styles", Names: []string{"color"}, Enum: []string{"red"}, Scope: "M", ScopeRe: `^[a-z]+-x$`}, Op{Kind: "styles", Names: []string{"color"}, Enum: []string{"blue"}, Scope: "M", ScopeRe: `^a-`},
+			Op{Kind: "styles", Names: []string{"width"}, Scope: "M", ScopeRe: `^a-`}),
 		mk("s-shadow", Op{Kind: "styles", Names: []string{"color"}, Scope: "M", ScopeRe: `^(b|i)$`}, Op{Kind: "styles", Names: []string{"width"}, Scope: "E", ScopeEls: []string{"b"}}),
 	}
 }
